@@ -72,22 +72,22 @@ Print Assumptions C08_validated_run_partial.
    boundaries; the per-access clauses are decided per program by the monitor, C08_monitor_sound), calls inside
    operands (procedure calls and function calls as right-hand sides: (6)), and the entry/exit stub. *)
 Theorem C08_frame_discipline_partial :
-  forall pinfo Fr Dq venv pool size nslots off0 og exitl ge P m0 lab sp f,
-    stmt_ok pinfo Fr Dq venv pool size nslots off0 og exitl ge P m0 lab sp f ->
-    forall s n code n' st st', cs pinfo venv pool size nslots off0 og exitl s n = Some (code, n') ->
+  forall pinfo Fr Dq venv aenv garr abase alen_of pool size nslots off0 og exitl ge P m0 lab sp f,
+    stmt_ok pinfo Fr Dq venv aenv garr abase alen_of pool size nslots off0 og exitl ge P m0 lab sp f ->
+    forall s n code n' st st', cs pinfo venv pool size nslots aenv off0 og exitl s n = Some (code, n') ->
     exec f ge s st = Ret Normal st' ->
-    forall m pos nxt a b inp, Rel pinfo Dq venv ge P m0 sp st m -> code_at (C P m0) lab pos code nxt ->
+    forall m pos nxt a b inp, Rel pinfo Dq venv aenv garr abase alen_of ge P m0 sp st m -> code_at (C P m0) lab pos code nxt ->
     0 <= pos -> nxt < W -> 0 <= lab exitl < W ->
     exists evs a' b' m',
       runs inp (mk pos a b 0 m) evs inp (mk nxt a' b' 0 m') /\
       rd m' 1 = rd m 1 /\
       (forall x, 0 <= x -> P x -> rd m' x = rd m x) /\
-      (forall x, 0 <= x -> ~ scratch Fr size nslots off0 og sp x -> ~ var_word venv sp x -> rd m' x = rd m x).
+      (forall x, 0 <= x -> ~ scratch Fr size nslots off0 og sp x -> ~ var_word venv garr abase alen_of sp x -> rd m' x = rd m x).
 Proof. exact frame_discipline. Qed.
 Print Assumptions C08_frame_discipline_partial.
 
 (* (6) PARTIAL: prologue/epilogue balance and the frame discipline ACROSS a procedure or function call, in the setting
-   of Properties_C01.C01_calls_partial (simple procedures and functions: value formals, var locals, no shadowing of globals; code =
+   of Properties_C01.C01_calls_partial (simple procedures and functions: value and array formals, var locals, no shadowing of globals; code =
    prologue ++ body ++ exit label ++ epilogue before the peepholes; globals below stack_lo; stack budget
    stack_lo + (maxdepth - depth) * maxframe <= sp in Rel).  When control is at the entry label of a procedure of the
    table with the link address in areg and the actuals in the caller's outgoing words, and XSem's `invoke` returns
@@ -99,19 +99,22 @@ Print Assumptions C08_frame_discipline_partial.
    scope.  In particular the callee did not write the caller's locals, formals, or anything above the caller's
    frame, and never went below stack_lo.
    (koff pi = 1 for a procedure, 2 for a function: where the actuals start; a function also writes its result to
-   the caller's outgoing word sp+1, which is part of [sp, sp+og).)
+   the caller's outgoing word sp+1, which is part of [sp, sp+og).)  Global arrays: the word of the name lies with the
+   globals, the cells in [stack_hi, 200000) above the stack; the cells of the arrays count as words of variables
+   in scope (var_word), so a callee may assign elements (of a global array under its name, or through an array formal:
+   an array actual is the address of the cells, arg_ok); everything else above the caller's frame is untouched.
    Missing for C08_full: calls inside operands, the per-access form of the clauses inside the callee (net effect at the
-   return only; per access: the monitor), array/proc formals, the entry/exit stub. *)
+   return only; per access: the monitor), proc/func formals, the entry/exit stub. *)
 Theorem C08_call_discipline_partial :
-  forall (ge : genv) (gaddr : string -> option Z) (pool : Z -> option Z) (P : Z -> Prop) (m0 : WMap.t)
-         (lab : label -> Z) (pinfo : string -> option pframe) (stack_lo maxframe : Z),
+  forall (ge : genv) (gaddr aaddr : string -> option Z) (abase alen_of : string -> Z) (pool : Z -> option Z) (P : Z -> Prop)
+         (m0 : WMap.t) (lab : label -> Z) (pinfo : string -> option pframe) (stack_lo stack_hi maxframe : Z),
     (forall p pi, pinfo p = Some pi ->
        0 <= lab (pf_entry pi) /\
        exists pr fn ln L bc n' endp,
-         find_proc p (g_procs ge) = Some pr /\ pf_isfunc pi = is_func pr /\ simple_proc gaddr pr fn ln /\
+         find_proc p (g_procs ge) = Some pr /\ pf_isfunc pi = is_func pr /\ simple_proc gaddr aaddr pr fn ln /\
          numbers_ok maxframe pr L /\
-         cs pinfo (frame_venv gaddr pr (pl_size L)) pool (pl_size L) (pl_nslots L) (first_temp pr) (pl_og L) (pl_exit L)
-            (body pr) (pl_n0 L) = Some (bc, n') /\
+         cs pinfo (frame_venv gaddr pr (pl_size L)) pool (pl_size L) (pl_nslots L) (frame_aenv aaddr pr (pl_size L)) (first_temp pr) (pl_og L)
+            (pl_exit L) (body pr) (pl_n0 L) = Some (bc, n') /\
          code_at (C P m0) lab (lab (pf_entry pi)) (pro (pl_size L) ++ bc ++ epi_of (is_func pr) (pl_exit L) (pl_size L)) endp /\ endp < W) ->
     (forall x a, gaddr x = Some a -> in_mem a = true /\ ~ P a /\ a <> 1 /\ a < stack_lo /\ assoc x (g_vals ge) = None) ->
     (forall x y a b, gaddr x = Some a -> gaddr y = Some b -> x <> y -> a <> b) ->
@@ -120,30 +123,36 @@ Theorem C08_call_discipline_partial :
     (forall v a, pool v = Some a -> P a /\ in_mem a = true /\ rd m0 a = v mod W) ->
     (forall p pi, pinfo p = Some pi -> assoc p (g_vals ge) = None) ->
     0 <= maxframe ->
-    forall f pr fn ln L sp, frame_ok gaddr stack_lo maxframe pr fn ln L sp ->
+    stack_hi <= MEMW ->
+    (forall a w, aaddr a = Some w ->
+       in_mem w = true /\ ~ P w /\ w <> 1 /\ w < stack_lo /\ (forall x g, gaddr x = Some g -> g <> w) /\
+       forall i, 0 <= i < alen_of a -> stack_hi <= abase a + i < MEMW /\ ~ P (abase a + i)) ->
+    (forall a w a' w' i i', aaddr a = Some w -> aaddr a' = Some w' -> 0 <= i < alen_of a -> 0 <= i' < alen_of a' ->
+       abase a + i = abase a' + i' -> a = a' /\ i = i') ->
+    forall f pr fn ln L sp, frame_ok gaddr aaddr stack_lo stack_hi maxframe pr fn ln L sp ->
     forall p pi vs st v st' m link b inp, pinfo p = Some pi ->
-      Rel pinfo (Dq_of ge stack_lo maxframe sp) (frame_venv gaddr pr (pl_size L)) ge P m0 sp st m ->
-      args_stored sp vs (koff pi) m -> Z.of_nat (List.length vs) + koff pi <= pl_og L -> 0 <= link < W ->
+      Rel pinfo (Dq_of ge stack_lo maxframe sp) (frame_venv gaddr pr (pl_size L)) (frame_aenv aaddr pr (pl_size L)) (garr_of aaddr) abase alen_of ge P m0 sp st m ->
+      args_stored (garr_of aaddr) abase sp vs (koff pi) m -> Z.of_nat (List.length vs) + koff pi <= pl_og L -> 0 <= link < W ->
       invoke (exec f ge) ge (pf_isfunc pi) p vs st = Ret v st' ->
       exists evs a' b' m', runs inp (mk (lab (pf_entry pi)) link b 0 m) evs inp (mk link a' b' 0 m') /\
         rd m' 1 = rd m 1 /\ (forall x, 0 <= x -> P x -> rd m' x = rd m x) /\
         (forall x, 0 <= x ->
            ~ scratch (Fr_of stack_lo sp) (pl_size L) (pl_nslots L) (first_temp pr) (pl_og L) sp x ->
-           ~ var_word (frame_venv gaddr pr (pl_size L)) sp x -> rd m' x = rd m x).
+           ~ var_word (frame_venv gaddr pr (pl_size L)) (garr_of aaddr) abase alen_of sp x -> rd m' x = rd m x).
 Proof. exact call_discipline. Qed.
 Print Assumptions C08_call_discipline_partial.
 
 (* Non-vacuity of (6): its hypotheses are those of Properties_C01.C01_calls_partial (prog_hyps), and they hold for
-   the demo program of coq/XCodegenDemo.v (a recursive procedure cd with a value formal and a local and a recursive
+   the demo program of coq/XCodegenDemo.v (a recursive procedure cd with a value formal, an array formal and a local and a recursive
    function fd, called from main), whose image is laid out as xcmp does from the model's lowered code.  Applied to
-   main's body `g := 0; cd(3); g := fd(g)` run from main's frame: after four nested activations of cd and seven of
-   fd the stack-pointer word holds 199994 as before. *)
+   main's body `g := 0; cd(3, a); g := fd(g); g := g + a[2]` run from main's frame: after four nested activations of cd
+   (each assigning an element of the global array a through its array formal) and seven of fd the stack-pointer word holds 199989 as before. *)
 Example C08_call_discipline_nonvacuous_hyps :
-  prog_hyps demo_ge demo_gaddr demo_pool demo_P demo_m0 demo_lab demo_pinfo demo_stack_lo demo_maxframe.
+  prog_hyps demo_ge demo_gaddr demo_aaddr demo_abase demo_alen demo_pool demo_P demo_m0 demo_lab demo_pinfo demo_stack_lo demo_stack_hi demo_maxframe.
 Proof. exact demo_hyps. Qed.
 Example C08_call_discipline_nonvacuous_run : forall a b inp, exists a' b' m',
-  runs inp (mk 112 a b 0 (wr demo_m0 1 199994)) [Write 51 0; Write 50 0; Write 49 0; Write 48 0] inp (mk 129 a' b' 0 m') /\
-  rd m' 1 = 199994 /\ rd m' 2 = 7.
+  runs inp (mk 136 a b 0 (wr demo_m0 1 199989)) [Write 51 0; Write 50 0; Write 49 0; Write 48 0] inp (mk 165 a' b' 0 m') /\
+  rd m' 1 = 199989 /\ rd m' 2 = 57 /\ rd m' 199998 = 50.
 Proof. exact demo_main_body_runs. Qed.
 
 (* Non-vacuity.  The image the repaired xcmp emits for `proc main() is skip` (5 words; data word 1 = stack
